@@ -523,7 +523,7 @@ func (fr *Frame) walkFields(st *State, base *Loc, recv types.Type, idx []int, n 
 			cur = &Loc{Kind: LHeap, Ref: cur.Ref, Owner: typeName(t), Field: f, T: f.Type()}
 		case LHeap:
 			// struct-valued field of a heap object: flattened sub-object
-			sub := e.subRef(cur.Owner, cur.Field, cur.Ref)
+			sub := e.subRefIn(st, cur.Owner, cur.Field, cur.Ref)
 			cur = &Loc{Kind: LHeap, Ref: sub, Owner: typeName(t), Field: f, T: f.Type()}
 		default:
 			cur = &Loc{Kind: LField, Base: cur, Field: f, T: f.Type()}
@@ -559,7 +559,7 @@ func (fr *Frame) evalAddrOf(st *State, x *ast.UnaryExpr) *Term {
 	case *ast.SelectorExpr:
 		l := fr.evalLoc(st, y)
 		if l.Kind == LHeap && isStructVal(l.Field.Type()) {
-			return e.subRef(l.Owner, l.Field, l.Ref)
+			return e.subRefIn(st, l.Owner, l.Field, l.Ref)
 		}
 		fr.unsupported(x, "address of field %s", y.Sel.Name)
 	case *ast.IndexExpr:
